@@ -273,7 +273,13 @@ def build_library(scene: Scene, intensities: np.ndarray, *, com_fit="no_shift", 
             arr = scene.obj.astype(np.float32) if scene.obj_type == "potential" else scene.obj.astype(np.complex64)
             obj_model = ObjectPixelated.from_array(arr, slice_thicknesses=thick, obj_type=scene.obj_type, rng=seed)
         params = {"energy": scene.energy, "semiangle_cutoff": scene.semiangle_mrad, "defocus": 0.0}
-        probe_model = ProbePixelated.from_params(params, num_probes=scene.num_probes, rng=seed)
+        prb_truth = scene.probes if probe_order is None else scene.probes[list(probe_order)]  # the order of incoherent modes is physically irrelevant
+        if probe_from == "array":
+            # the other public constructor: the probe handed over as an array (its initial probe is then a non-leaf tensor, so
+            # Ptychography.clone() takes its save-and-reload route instead of copy.deepcopy)
+            probe_model = ProbePixelated.from_array(prb_truth.astype(np.complex64), num_probes=scene.num_probes, probe_params={"energy": scene.energy}, rng=seed)
+        else:
+            probe_model = ProbePixelated.from_params(params, num_probes=scene.num_probes, rng=seed)
         det = DetectorPixelated()
         pt = Ptychography.from_models(dset=pdset, obj_model=obj_model, probe_model=probe_model, detector_model=det, device="cpu", verbose=0, rng=seed)
         for _rep in range(2 if pt_twice else 1):
@@ -282,14 +288,22 @@ def build_library(scene: Scene, intensities: np.ndarray, *, com_fit="no_shift", 
         if not orthogonalize:
             pt.probe_model.add_constraint("orthogonalize_probe", False)
         if install_truth:
-            prb = scene.probes if probe_order is None else scene.probes[list(probe_order)]  # the order of incoherent modes is physically irrelevant
-            pt.probe_model.probe = torch.tensor(prb.astype(np.complex64))
+            pt.probe_model.probe = torch.tensor(prb_truth.astype(np.complex64))
     return pt
 
 
 def library_loss(pt, loss_type="l2_amplitude", batch_size=None, key="object"):
     """Loss at the current state through the public path: one reconstruct() iteration with lr = 0 SGD."""
     pt.reconstruct(num_iters=1, reset=False, optimizer_params={key: {"type": "sgd", "lr": 0.0}}, batch_size=batch_size, loss_type=loss_type)
+    return float(pt.iter_losses[-1])
+
+
+def library_loss_with(pt, loss_type, batch_size, dataset_opt):
+    """As library_loss, with object and probe optimizers at lr = 0 and the dataset optimizer entry given (None = not mentioned)."""
+    opt = {"object": {"type": "sgd", "lr": 0.0}, "probe": {"type": "sgd", "lr": 0.0}}
+    if dataset_opt is not None:
+        opt["dataset"] = dict(dataset_opt)
+    pt.reconstruct(num_iters=1, reset=False, optimizer_params=opt, batch_size=batch_size, loss_type=loss_type)
     return float(pt.iter_losses[-1])
 
 
